@@ -23,6 +23,9 @@ def json_to_host(v):
         return [json_to_host(x) for x in v]
     return {k: json_to_host(x) for k, x in v.items()}
 
+ENDLESS = ["while (true) { }", "n = 0; while (n >= 0) { n = n + 1; } return n;", "function f() { while (1) { x = 1; } } return f();",
+           "for (true) { foreach x in 1..3 { y = x; } }"]
+
 class C20(Prop):
     id = "C20"
     need_cli = True
@@ -119,7 +122,7 @@ class C20(Prop):
                 doc = {k: rand_json(rng, 2) for k in rng.sample(["Name", "Count", "Tags", "Meta", "a", "b"], rng.randint(0, 4))}
                 src = rng.choice(["return Name;", "return Count;", "return Tags;", "return Meta;", "return a;", "return len(Tags) > 1;",
                                   "return Count * 2;", "return Name + \"x\";", "return nosuch;", "return 1 / 0;", "return [a, b];", "x = ;",
-                                  "print(\"side output\\n\"); return true;", "return Count > 1 && Name ~= /e/;", "while (true) { }"])
+                                  "print(\"side output\\n\"); return true;", "return Count > 1 && Name ~= /e/;"] + ENDLESS)
                 if rng.random() < 0.3:
                     src = gen.Gen(rng, max_depth=2, use_fields=False).program(nstmts=rng.randint(1, 3), depth=1)
                 sp, jp = os.path.join(tmp, "s%d.in" % i), os.path.join(tmp, "d%d.json" % i)
@@ -129,8 +132,14 @@ class C20(Prop):
                     json.dump(doc, open(jp, "w"))
                 noopt = rng.random() < 0.5
                 args = [cli, "run"] + (["-json", jp] if use_json else []) + (["-no-optimizer"] if noopt else []) + ["-timeout", "500ms", sp]
-                p = subprocess.run(args, stdout=subprocess.PIPE, stderr=subprocess.PIPE, timeout=30)
+                try:
+                    p = subprocess.run(args, stdout=subprocess.PIPE, stderr=subprocess.PIPE, timeout=20)
+                except subprocess.TimeoutExpired:
+                    viol.append((None, "`evalfilter run -timeout 500ms` was still running after 20 s on script %r (%s)" % (src, " ".join(args[1:-1]))))
+                    continue
                 stdout = p.stdout.decode("utf-8", "replace")
+                if src in ENDLESS and "timeout" not in stdout:
+                    viol.append((None, "`evalfilter run -timeout 500ms` does not report the timeout Execute gives for the endless script %r: %r" % (src, stdout[-200:])))
                 if p.returncode != 0 or "panic:" in p.stderr.decode("utf-8", "replace") or "goroutine " in p.stderr.decode("utf-8", "replace"):
                     viol.append((None, "`evalfilter run` did not exit normally (rc=%d) on script %r" % (p.returncode, src)))
                     continue
